@@ -187,6 +187,46 @@ def fact_atomic_links(repo):
         return None
 
 
+def fact_recheck_inside_mutex(repo):
+    """runner_local.memento_run_local: a `with _mutex_for_invocation(...)` block contains the call
+    storage_backend.get_memento(...) and, after it, the call of the function body (_filter_call)"""
+    try:
+        tree = _parse(repo, "runner_local.py")
+        fn = _find_func(tree, "memento_run_local")
+        for n in ast.walk(fn):
+            if isinstance(n, ast.With) and any(
+                    isinstance(it.context_expr, ast.Call) and isinstance(it.context_expr.func, ast.Name)
+                    and it.context_expr.func.id == "_mutex_for_invocation" for it in n.items):
+                names = _calls(n)
+                if "get_memento" in names and "_filter_call" in names:
+                    return names.index("get_memento") < names.index("_filter_call")
+                return False
+        # the mutex is taken some other way: unknown shape
+        return None
+    except Exception:
+        return None
+
+
+def fact_cache_methods_locked(repo):
+    """every public MemoryCache method (and put) is decorated @_synchronized, or its body is one
+    `with self._lock:` block"""
+    try:
+        cls = _find_class(_parse(repo, "storage_base.py"), "MemoryCache")
+        need = {"get_mementos", "read_result", "is_memoized", "put", "forget_call", "forget_everything", "forget_function"}
+        ok = set()
+        for st in cls.body:
+            if isinstance(st, ast.FunctionDef) and st.name in need:
+                deco = any((isinstance(d, ast.Name) and d.id == "_synchronized") for d in st.decorator_list)
+                body = [b for b in st.body if not (isinstance(b, ast.Expr) and isinstance(b.value, ast.Constant))]
+                withlock = len(body) == 1 and isinstance(body[0], ast.With) and any(
+                    isinstance(it.context_expr, ast.Attribute) and it.context_expr.attr == "_lock" for it in body[0].items)
+                if deco or withlock:
+                    ok.add(st.name)
+        return ok == need
+    except Exception:
+        return None
+
+
 FACTS = []
 
 
@@ -225,6 +265,16 @@ def _f5(repo):
 @fact("atomic_links_fact", "option bool")
 def _f6(repo):
     return _opt_bool(fact_atomic_links(repo))
+
+
+@fact("recheck_inside_mutex", "option bool")
+def _f7(repo):
+    return _opt_bool(fact_recheck_inside_mutex(repo))
+
+
+@fact("cache_methods_locked", "option bool")
+def _f8(repo):
+    return _opt_bool(fact_cache_methods_locked(repo))
 
 
 def generate(repo):
